@@ -177,7 +177,12 @@ def run(spec, mon):
         q0 = crng.random() < 0.5
         if not mon.want(["helper", j]):
             continue
-        _check_helpers(mon, H, get_sqrt_ratio_at_tick, t, d0, d1, q0)
+        try:
+            _check_helpers(mon, H, get_sqrt_ratio_at_tick, t, d0, d1, q0)
+        except Exception as e:  # noqa  a helper of the code under test raised on a valid tick / price
+            import traceback
+
+            mon.violation("uniswap", "price-helpers", "raises", type(e).__name__, f"tick {t} decimals ({d0},{d1}) token0_is_quote={q0}: " + traceback.format_exc()[-600:])
 
     # ---------------- nearest_usable_tick
     n_near = 2000 if tier == "quick" else 100000
